@@ -42,7 +42,9 @@ let check_C01 = check_with false oracle_C01
 let check_C12 = check_with false oracle_C12
 let check_C07 = check_with true oracle_names
 let check_C08 = check_with true oracle_names
-let check_C10 = check_with true oracle_turns
+let check_C10 fields =
+  (* lock-step cases: the per-message discipline; all cases: a startup packet within the limit is served *)
+  check_with false (fun sc log -> if is_lock fields then oracle_C10 sc log else startup_served sc log) fields
 let check_C13 = check_with true oracle_C13
 let check_C19 fields =
   (* lock-step cases are also judged by the per-message discipline (Terminate rule) *)
